@@ -1,0 +1,10 @@
+// Copyright 2018-present the CoreDHCP Authors. All rights reserved
+// This source code is licensed under the MIT license found in the
+// LICENSE file in the root directory of this source tree.
+
+//go:build !verif
+
+package prefix
+
+// verifTrack is a no-op in normal builds (see verif_on.go)
+func verifTrack(*Handler) {}
